@@ -75,6 +75,30 @@ def check(ctx):
                         "mpsc/%s-delayed-free" % fn, "a consumed block is parked in old_block (its producer may still be inside wait_next_block), never freed at once")
         ctx.order(fid, Call(r"(std|alloc)::boxed::Box::from_raw", transitive=False), Call(A("store"), on=MQ + "::Position.block", transitive=False), "mpsc/%s-next-block" % fn,
                   "the head moves to the next block only after the old one was retired", need_b=True)
+    # (seed C03-3) the retired block is released ONLY by being replaced with the next retired block (one full block later) or
+    # by Queue::drop: the producer that filled slot 63 still reads the block (`start`, `next`) after publishing its value
+    sites = []; bad = []
+    for f in ctx.prog.find(r"may_queue::mpsc::"):
+        if f.id.startswith("<may_queue::mpsc::Queue as std::ops::Drop>") or f.id.endswith("::Queue::new"): continue
+        for pt in f.points():
+            n = f.node(pt)
+            if n.get("t") == "call" and n["args"]:
+                o = simplify(trace_operand(f, n["args"][0]))
+                if (MQ + "::Queue.old_block") in all_fields(o):
+                    nm = callee_name(n) or "?"
+                    sites.append((f, pt, nm))
+                    if not re.fullmatch(r"(std|core)::cell::UnsafeCell::get|(std|core)::option::Option::replace", nm): bad.append((f, pt, nm))
+            elif n.get("s") == "=" and n["l"]["p"]:
+                o = simplify(trace_place(f, n["l"]))
+                if (MQ + "::Queue.old_block") in all_fields(o):
+                    sites.append((f, pt, "assignment")); bad.append((f, pt, "assignment"))
+    if len([x for x in sites if x[2].endswith("::replace")]) < 3:
+        ctx.missing("R-WHO", MQ + "::Queue.old_block", "mpsc/retired-block-only-replaced", "expected >= 3 old_block.replace sites, found %d" % len(sites))
+    else:
+        ctx.ob("R-WHO", MQ + "::Queue.old_block", "mpsc/retired-block-only-replaced", not bad,
+               "old_block is touched only by `replace(next retired block)` (%d sites): a retired block lives until the consumer retired one more block" % len(sites) if not bad else
+               "%s uses old_block through %s: the retired block can be freed while the producer that filled its last slot is still inside push (reads `start`, spins on `next`): use-after-free" % (bad[0][0].id, bad[0][2]),
+               (bad[0][0].where(bad[0][1]) if bad else sites[0][0].where(sites[0][1])))
     D = "<may_queue::mpsc::Queue as std::ops::Drop>::drop"
     ctx.guarded(D, Call(r"(std|alloc)::boxed::Box::from_raw", transitive=False), call_false(r"(std|core)::option::Option::is_some"), "mpsc/drop-drains",
                 "Drop frees the blocks only after pop() returned None (remaining values are dropped once, by pop)", pred_label="edge `pop().is_some()` is false")
@@ -112,6 +136,15 @@ def check(ctx):
                 o = ordering_of(f, t["args"][1])
                 good = satisfies(o or "Relaxed", "ACQ")
                 ctx.ob("R-MO", fid, "spsc/%s-load-acq" % fn, good, "tail.index.load(%s) in %s %s floor ACQ (its value guards the slot read)" % (o, fid, "meets" if good else "is BELOW"), f.where(pt))
+    # (seed C03-4) the consumer reads the slots BEFORE it releases the block / commits the index: with `inner_cache` the producer
+    # recycles every block in front of head.block, and reuses every slot in front of head.index
+    for fn in ("pop", "bulk_pop"):
+        fid = SQ + "::Queue::" + fn
+        rd = Call(re.escape(SQ) + "::BlockNode::(get|copy_to_bulk)", transitive=False)
+        ctx.order(fid, rd, Call(A("store"), on=SQ + "::Position.block", on_any=SQ + "::Queue.head", transitive=False), "spsc/%s-read-then-release-block" % fn,
+                  "the slots are read before head.block hands the block back to the producer's free list", need_b=True)
+        ctx.order(fid, rd, Call(A("store"), on=SQ + "::Position.index", on_any=SQ + "::Queue.head", transitive=False), "spsc/%s-read-then-commit" % fn,
+                  "the slots are read before head.index commits the pop", need_b=True)
     ctx.guarded(SQ + "::Queue::pop", Agg(r"(std|core)::option::Option", "None", transitive=False),
                 lambda a: a.kind == "cmp" and a.op == "Eq" and (is_call_result(A("load"))(a.a) or is_call_result(A("load"))(a.b)),
                 "spsc/none-only-if-empty", "pop returns None only when index == tail.index", pred_label="edge `index == push_index`")
